@@ -32,12 +32,12 @@ def load_extract():
 # ----------------------------------------------------------------------------------------------------------------
 # parsing of a dump line
 # ----------------------------------------------------------------------------------------------------------------
-LINE_RE = re.compile(r"^(?P<pre>(?:![A-Z]+)*)r=(?P<r>\S+)(?: z=(?P<z>\d+))?(?: B=(?P<B>\S*) F=(?P<F>\S*) S=(?P<S>\S+)| n=(?P<n>\d+) H=(?P<H>\d+))(?P<rest>.*)$")
+LINE_RE = re.compile(r"^(?P<pre>(?:![A-Z]+)*)r=(?P<r>\S+)(?: z=(?P<z>\d+))?(?: blocks=(?P<db>\d+) alloc=(?P<da>\d+) avail=(?P<dv>\d+))?(?: B=(?P<B>\S*) F=(?P<F>\S*) S=(?P<S>\S+)| n=(?P<n>\d+) H=(?P<H>\d+))(?P<rest>.*)$")
 BLK_RE = re.compile(r"\((\d+),(\d+),(\d+),(\d+)\)")
 
 
 class Parsed:
-    __slots__ = ("r", "z", "blks", "fl", "stat", "digest", "markers", "raw")
+    __slots__ = ("r", "z", "blks", "fl", "stat", "digest", "markers", "raw", "dsum")
 
 
 def parse_line(o):
@@ -48,6 +48,7 @@ def parse_line(o):
     p.raw = o
     p.r = m.group("r")
     p.z = int(m.group("z")) if m.group("z") else None
+    p.dsum = (int(m.group("db")), int(m.group("da")), int(m.group("dv"))) if m.group("db") else None
     p.markers = m.group("pre") + m.group("rest")
     if m.group("B") is not None:
         b = m.group("B")
@@ -123,9 +124,19 @@ class Oracle:
         else:
             if self.zone is None:
                 return "op answered without a zone"
+            if w[0] == "dump":
+                if p.r != "dump" or p.dsum is None:
+                    return "dump answered %s" % p.r
+                if self.prev_state is not None and self.state_key(p) != self.prev_state:
+                    return "hawk_xma_dump changed the heap"
+                if p.blks is not None:
+                    want = (len(p.blks), sum(b[1] for b in p.blks if not b[2]), sum(b[1] for b in p.blks if b[2]))
+                    if p.dsum != want:
+                        return "hawk_xma_dump reports %s, the walk gives %s" % (p.dsum, want)
+                return None
             n = int(w[-1]) if w[0] != "free" else None
             slot = None
-            if w[0] == "alloc":
+            if w[0] in ("alloc", "calloc"):
                 self.h.append(None)
                 slot = len(self.h) - 1
                 old = None
@@ -173,8 +184,9 @@ class Oracle:
                 return "block chain does not tile the zone: block at %d, expected %d" % (bo, off)
             if bp != prevsz:
                 return "prev_size of the block at %d is %d, predecessor has %d" % (bo, bp, prevsz)
-            if bs % A != 0 or bs < K["MINALLOC"]:
-                return "block at %d has size %d" % (bo, bs)
+            # every header at a multiple of ALIGN (all blocks but the last of the zone have aligned sizes)
+            if bo % A != 0 or bs < K["MINALLOC"]:
+                return "block at offset %d has size %d" % (bo, bs)
             if bf and prevfree:
                 return "two adjacent free blocks at %d" % bo
             if bf:
@@ -223,6 +235,8 @@ def oracle(lines, cout):
         msg = orc.feed(l, cout[i])
         if msg:
             return (i, msg)
+    if len(cout) > len(lines):
+        return (len(lines) - 1, "trailing output: %s" % " | ".join(cout[len(lines):])[:200])
     return None
 
 
@@ -263,8 +277,10 @@ def gen_random(rng, n, zone, profile, external):
         k = rng.random()
         if len(live) >= maxlive:
             k = 0.99
-        if k < pa or not live:
-            lines.append("alloc %d" % boundary_sizes(rng, zone)); live.append(nh); nh += 1
+        if rng.random() < 0.01:
+            lines.append("dump")
+        elif k < pa or not live:
+            lines.append(("calloc %d" if rng.random() < 0.12 else "alloc %d") % boundary_sizes(rng, zone)); live.append(nh); nh += 1
         elif k < pa + pr:
             h = rng.choice(live) if rng.random() < 0.95 else rng.randrange(nh)
             lines.append("realloc %d %d" % (h, boundary_sizes(rng, zone)))
@@ -286,6 +302,24 @@ def gen_random(rng, n, zone, profile, external):
     return lines
 
 
+def tail_history(z):
+    """external zone of z bytes: fill it up to the tail, grow/shrink the last block, drain, take the zone whole"""
+    ls = ["initx %d" % z]
+    n = 0
+    step = 112 if z >= 512 else 16
+    for _ in range(z // (step + 16) + 2):
+        ls.append("alloc %d" % step); n += 1
+    last = max(0, z // (step + 16) - 1)
+    ls += ["realloc %d %d" % (last, step + 1), "realloc %d %d" % (last, step + 40), "calloc 1", "dump"]
+    n += 1
+    for h in reversed(range(n)):
+        ls.append("free %d" % h)
+    whole = max(0, z - 16)
+    ls += ["alloc %d" % whole, "alloc %d" % ((whole // 16) * 16), "realloc %d %d" % (n + 1, 16), "realloc %d %d" % (n + 1, whole),
+           "calloc %d" % 16, "free %d" % (n + 1), "free %d" % (n + 2), "free %d" % n]
+    return ls
+
+
 def run_c(exe, lines):
     rc, cout, cerr = C.run_harness(exe, [], lines, timeout=60 + len(lines) // 200)
     return cout, C.classify_rc(rc, cerr), cerr
@@ -295,11 +329,10 @@ def run_m(ctx, lines):
     return C.run_driver(ctx, "xma", lines, timeout=120 + len(lines) // 100)
 
 
-def bfs_explore(ctx, exe, depth, cap):
+def bfs_explore(ctx, exe, depth, cap, init="init %d" % BFS_ZONE):
     """breadth-first exploration by heap state of a 1 KiB zone: every op applicable in every distinct state reached so far.
     States are identified by the implementation's own dump (block walk + free lists); the handle table is carried along.
     Returns the list of histories executed (each one `init` + ops)."""
-    init = "init %d" % BFS_ZONE
     frontier = [([], {})]        # (ops, {handle: True})
     seen = set()
     hists = []
@@ -307,11 +340,11 @@ def bfs_explore(ctx, exe, depth, cap):
     for d in range(1, depth + 1):
         cands = []
         for ops, live in frontier:
-            nh = sum(1 for o in ops if o.startswith("alloc"))
+            nh = sum(1 for o in ops if o.split()[0] in ("alloc", "calloc"))
             sizes = BFS_SIZES if d <= 3 else ([1, 17, 496, 512, 513] if d % 2 else [16, 32, 496, 512, 528])
             for s in sizes:
                 nl0 = dict(live); nl0[nh] = True
-                cands.append((ops + ["alloc %d" % s], nl0))
+                cands.append((ops + [("calloc %d" if (s + d) % 5 == 0 else "alloc %d") % s], nl0))
             for h in sorted(live):
                 nl = dict(live); del nl[h]
                 cands.append((ops + ["free %d" % h], nl))
@@ -342,7 +375,7 @@ def bfs_explore(ctx, exe, depth, cap):
             for o, co in zip(ops, outs):
                 w = o.split()
                 ok = not co.startswith("r=NULL")
-                if w[0] == "alloc":
+                if w[0] in ("alloc", "calloc"):
                     if ok:
                         nl[hcount] = True
                     hcount += 1
@@ -354,6 +387,43 @@ def bfs_explore(ctx, exe, depth, cap):
         stats.append((d, len(cands), len(nxt)))
         frontier = nxt
     return hists, stats, len(seen)
+
+
+def xma_dump_check(text, m):
+    """the [XMA DUMP] that `hawk -D -m N` prints after closing the interpreter: the blocks must tile the zone of N bytes
+    (rounded up to ALIGN) and - when nothing is allocated any more - be one single block"""
+    if m <= 0:
+        return None
+    i = text.rfind("[XMA DUMP]")
+    if i < 0:
+        return "no dump printed"
+    blocks, asum, fsum, total = [], None, None, None
+    for l in text[i:].split("\n"):
+        mm = re.match(r"^ (\d+)\s+(\d)\s+0x", l)
+        if mm:
+            blocks.append((int(mm.group(1)), int(mm.group(2))))
+        mm = re.match(r"^Allocated blocks:\s+(\d+)", l)
+        if mm:
+            asum = int(mm.group(1))
+        mm = re.match(r"^Available blocks:\s+(\d+)", l)
+        if mm:
+            fsum = int(mm.group(1))
+        mm = re.match(r"^total = (\d+)", l)
+        if mm:
+            total = int(mm.group(1))
+    A, HDR = K["ALIGN"], K["HDR"]
+    zone = max(((m + A - 1) // A) * A, HDR + K["MINALLOC"])
+    if total is not None and total != zone:
+        return "total %d, zone is %d" % (total, zone)
+    if asum != sum(b[0] for b in blocks if not b[1]) or fsum != sum(b[0] for b in blocks if b[1]):
+        return "sums %s/%s differ from the block lines" % (asum, fsum)
+    if sum(b[0] + HDR for b in blocks) != zone:
+        return "blocks cover %d bytes, zone is %d" % (sum(b[0] + HDR for b in blocks), zone)
+    if any(blocks[k][1] and blocks[k + 1][1] for k in range(len(blocks) - 1)):
+        return "two adjacent free blocks"
+    if asum == 0 and len(blocks) != 1:
+        return "nothing allocated but %d blocks" % len(blocks)
+    return None
 
 
 def hawk_smoke(ctx, libdir):
@@ -372,9 +442,14 @@ def hawk_smoke(ctx, libdir):
     outcomes = {}
     for p in progs:
         for m in sizes:
-            rc, out, err = C.sh(["timeout", "-s", "KILL", "30", hawk, "-m", str(m), p], timeout=40, env=C.ASAN_ENV)
+            rc, out, err = C.sh(["timeout", "-s", "KILL", "30", hawk, "-D", "-m", str(m), p], timeout=40, env=C.ASAN_ENV)
             evals += 1
             err = err.decode(errors="replace")
+            msg = xma_dump_check(out.decode(errors="replace") + "\n" + err, m)
+            if msg:
+                ctx.problem("impl", "hawk -D -m %d: the final hawk_xma_dump is inconsistent: %s" % (m, msg),
+                            "# run: hawk -D -m %d '<prog>'\n%s\n%s" % (m, p, (out.decode(errors="replace") + err)[-3000:]), found_input=True)
+                return evals, outcomes
             st = C.classify_rc(rc, err)
             if rc in (-9, 137):
                 st = "HANG"
@@ -383,6 +458,23 @@ def hawk_smoke(ctx, libdir):
             if kind not in ("result", "error"):
                 ctx.problem("impl", "hawk -m %d ended with %s instead of a result or an out-of-memory error" % (m, st),
                             "# run: hawk -m %d '<prog>'\n%s\n%s" % (m, p, err[-2000:]), found_input=True)
+                return evals, outcomes
+    # the stream editor takes the same -m path (bin/sed.c)
+    sed = os.path.join(libdir, "hawk-sed")
+    text = ("".join("line %d aaa bbb ccc\n" % i for i in range(400))).encode()
+    for script in ["s/a/xy/g", "N;N;s/\\n/+/g;p", "G;h"]:
+        for m in ([1, 20000, 200000, 1 << 22] if ctx.tier == "quick" else [1, 32, 5000, 20000, 60000, 200000, 1 << 20, 1 << 22]):
+            rc, out, err = C.sh(["timeout", "-s", "KILL", "30", sed, "-m", str(m), script], timeout=40, env=C.ASAN_ENV, input_=text)
+            evals += 1
+            err = err.decode(errors="replace")
+            st = C.classify_rc(rc, err)
+            if rc in (-9, 137):
+                st = "HANG"
+            kind = "sed-result" if rc == 0 else ("sed-error" if st.startswith("EXIT") else st)
+            outcomes[kind] = outcomes.get(kind, 0) + 1
+            if kind not in ("sed-result", "sed-error"):
+                ctx.problem("impl", "hawk-sed -m %d ended with %s instead of a result or an out-of-memory error" % (m, st),
+                            "# run: hawk-sed -m %d '%s' < 400 lines\n%s" % (m, script, err[-2000:]), found_input=True)
                 return evals, outcomes
     return evals, outcomes
 
@@ -425,8 +517,10 @@ def classify_branches(lines, cout):
         null = "r=NULL" in o[:16]
         r = o.split(" ", 1)[0]
         d = n - prev_n
-        if w == "alloc":
-            k = "alloc:NULL" if null else ("alloc:split" if d == 1 else "alloc:whole")
+        if w == "dump":
+            k = "dump"
+        elif w in ("alloc", "calloc"):
+            k = w + ":NULL" if null else (w + ":split" if d == 1 else w + ":whole")
             if not null:
                 ptr[nh] = r
             nh += 1
@@ -479,11 +573,25 @@ def run(ctx):
     bh, bstats, nstates = bfs_explore(ctx, exe, 7 if quick else 10, 15000 if quick else 150000)
     ctx.log("bfs: levels (depth, executed, new states) = %s, %d distinct heap states, %.1fs" % (bstats, nstates, time.time() - t))
     hists += bh
+    # the same exploration on a caller-supplied zone whose size is not a multiple of ALIGN (residue drawn per run)
+    t = time.time()
+    xz = 992 + rng.randrange(1, 16)
+    bh2, bstats2, nstates2 = bfs_explore(ctx, exe, 5 if quick else 8, 6000 if quick else 100000, init="initx %d" % xz)
+    ctx.log("bfs (external zone of %d bytes): levels = %s, %d distinct heap states, %.1fs" % (xz, bstats2, nstates2, time.time() - t))
+    hists += bh2
+    bstats = bstats + [("initx %d" % xz,)] + bstats2
+    nstates += nstates2
+    # caller-supplied zones of every residue mod ALIGN, driven to the last byte of the zone
+    for base in (32, 48, 1008, 4096):
+        for r in range(16):
+            hists.append(tail_history(base + r))
     nrand = 60 if quick else 700
     zones = [1024, 4096, 5000, 65536, 1 << 20, 100, 48, 32, 16, 0, 4112, 1 << 16]
     for i in range(nrand):
         zone = rng.choice(zones)
-        ext = rng.random() < 0.5 and zone % 16 == 0
+        ext = rng.random() < 0.5
+        if ext and rng.random() < 0.6:
+            zone += rng.randrange(16)
         prof = rng.choice(list(PROFILES))
         n = rng.randrange(20, 400) if rng.random() < 0.8 else rng.randrange(1000, 3000 if quick else 5000)
         h = gen_random(rng, n, zone, prof, ext)
@@ -610,7 +718,7 @@ def run(ctx):
             co = cout[pos:pos + len(b)]
             pos += len(b)
             pr = classify_branches(b, co)
-            if pr.get("alloc:split") and (pr.get("free:merge1") or pr.get("free:merge2")) and any(k.startswith("realloc:inplace") or k == "realloc:moved" for k in pr):
+            if (pr.get("alloc:split") or pr.get("calloc:split")) and (pr.get("free:merge1") or pr.get("free:merge2")) and any(k.startswith("realloc:inplace") or k == "realloc:moved" for k in pr):
                 t = tuple(b)
                 if t not in seen:
                     seen.add(t); nontriv += 1
@@ -622,14 +730,14 @@ def run(ctx):
                     "guard bands on the real code, (2) full dump (return value, block walk, free lists, statistics) compared with the Lean driver; distinct_nontrivial = distinct histories in which the "
                     "implementation performed a split, a merging free and a successful realloc",
                     samples,
-                    extra_cov=dict(op_distribution=dist, branch_profile=prof, histories=len(hists), bfs_levels=bstats, bfs_states=nstates,
+                    extra_cov=dict(op_distribution=dist, branch_profile=prof, histories=len(hists), bfs_levels=[list(x) for x in bstats], bfs_states=nstates,
                                    impl_status=status, constants=vals, hawk_m_outcomes=smoke),
                     trusted=["xma.c modelled by hand in HawkModel/Xma.lean (block chain as a list; next/prev block = list neighbours; free_prev/free_next links as list order; "
                              "statistics counters not modelled but compared with values derived from the model chain)",
                              "constants ALIGN/HDR/MINALLOC/FIXED/NCLS/BITS extracted by extract/xma_const.py from the checked tree",
                              "payload bytes are modelled per block; bytes of free blocks and header bytes are not modelled (guard bands + patterns on the C side)"],
                     assumptions=["zone and request sizes are machine words; zone < 2^63 (HAWK_XMA_SIZE_BITS)",
-                                 "an externally supplied zone is ALIGN-aligned and its size a multiple of ALIGN (the internal path rounds by itself)",
+                                 "an externally supplied zone starts at an ALIGN-aligned address (its size is arbitrary)",
                                  "callers pass only pointers of live blocks to realloc/free (anything else is undefined in C; Err.badptr in the model)"])
 
 
